@@ -99,6 +99,7 @@ func goldRead(c *c13ref.ECurve, P *goldilocks.Point) (c13ref.EPoint, bool) {
 }
 
 func goldCheck(c *c13ref.ECurve, op, class string, want c13ref.EPoint, got *goldilocks.Point, detail map[string]any) bool {
+	detail["case-class"], class = class, c13ref.Coarse(class)
 	g, on := goldRead(c, got)
 	if !c.Eq(g, want) {
 		detail["want"] = estr(want)
@@ -229,8 +230,9 @@ func TestVerifGoldilocks(t *testing.T) {
 		}
 	})
 
-	// ---- ScalarMult / ScalarBaseMult
-	lib.Par(n, func(i int) {
+	// ---- ScalarMult / ScalarBaseMult (reference cost ~25 ms per case: fewer cases than the formulas)
+	nm := lib.Scale(400, 8000)
+	lib.Par(nm, func(i int) {
 		r := lib.NewRng("c13/gold/mul", i)
 		p := pool[r.Intn(len(pool))]
 		k, kclass := c13ref.GenScalar(r, N, goldilocks.ScalarSize)
@@ -273,9 +275,50 @@ func TestVerifGoldilocks(t *testing.T) {
 		}
 	})
 
+	// ---- exhaustive ends of the scalar range for the fixed-base and variable-base paths
+	{
+		sw := c13ref.SweepScalars(N, lib.Scale(300, 4000), lib.Scale(40, 600))
+		var lifted ept
+		for _, e := range pool {
+			if e.Class == "lifted" {
+				lifted = e
+				break
+			}
+		}
+		lib.Mandatory("goldilocks.sweep", "goldilocks.cm:small-grid")
+		lib.Par(len(sw), func(i int) {
+			k := sw[i]
+			lib.Case([]byte("goldilocks.sweep"), k.Bytes())
+			lib.Count("goldilocks.sweep")
+			var R1, R2 *goldilocks.Point
+			if !guarded(monGold, "goldilocks.ScalarBaseMult", k.Bytes(), func() { R1 = cv.ScalarBaseMult(goldScalar(k)) }) ||
+				!guarded(monGold, "goldilocks.ScalarMult", k.Bytes(), func() { R2 = cv.ScalarMult(goldScalar(k), goldPoint(lifted.P)) }) {
+				return
+			}
+			goldCheck(c, "ScalarBaseMult", "sweep", c.MulG(k), R1, lib.D("k", k.Text(16)))
+			goldCheck(c, "ScalarMult", "sweep", c.Mul(k, lifted.P), R2, lib.D("k", k.Text(16), "P", estr(lifted.P)))
+		})
+		grid := c13ref.SmallGrid(8)
+		lib.Par(len(grid), func(i int) {
+			g := grid[i]
+			kq, mm, nn := big.NewInt(g[0]), big.NewInt(g[1]), big.NewInt(g[2])
+			qp := c.MulG(kq)
+			want := c.MustAdd(c.MulG(mm), c.Mul(nn, qp))
+			lib.Case([]byte("goldilocks.CombinedMult"), qp.Bytes(), mm.Bytes(), nn.Bytes())
+			lib.Count("goldilocks.CombinedMult")
+			lib.Count("goldilocks.cm:small-grid")
+			var R *goldilocks.Point
+			if !guarded(monGold, "goldilocks.CombinedMult", append(mm.Bytes(), nn.Bytes()...), func() { R = cv.CombinedMult(goldScalar(mm), goldScalar(nn), goldPoint(qp)) }) {
+				return
+			}
+			goldCheck(c, "CombinedMult", "related-Q", want, R,
+				lib.D("Q", estr(qp), "dlogQ", kq.String(), "m", mm.String(), "n", nn.String(), "class", "small-grid"))
+		})
+	}
+
 	// ---- CombinedMult(m, n, Q) = mG + nQ
 	G := ept{big.NewInt(1), c.G, "kG"}
-	lib.Par(n, func(i int) {
+	lib.Par(nm, func(i int) {
 		r := lib.NewRng("c13/gold/cm", i)
 		q := pool[r.Intn(len(pool))]
 		nn, _ := c13ref.GenScalar(r, N, goldilocks.ScalarSize)
@@ -313,6 +356,13 @@ func TestVerifGoldilocks(t *testing.T) {
 			mm, cl = big.NewInt(0), "m=0"
 		case 8:
 			nn, cl = big.NewInt(0), "n=0"
+		case 9:
+			nn = new(big.Int).Add(N, big.NewInt(int64(r.Intn(160)-40)))
+			mm = big.NewInt(int64(r.Intn(3)))
+			if r.Bool() {
+				mm = big.NewInt(0)
+			}
+			cl = "n~N"
 		}
 		if mm.Cmp(lim) >= 0 {
 			mm.Mod(mm, N)
@@ -362,6 +412,7 @@ func fqRead(c *c13ref.ECurve, P *fourq.Point) c13ref.EPoint {
 }
 
 func fqCheck(c *c13ref.ECurve, op, class string, want c13ref.EPoint, got *fourq.Point, detail map[string]any) bool {
+	detail["case-class"], class = class, c13ref.Coarse(class)
 	g := fqRead(c, got)
 	if !c.Eq(g, want) {
 		detail["want"], detail["got"] = estr(want), estr(g)
@@ -478,7 +529,37 @@ func TestVerifFourQ(t *testing.T) {
 		}
 	})
 
-	lib.Par(n, func(i int) {
+	{
+		sw := c13ref.SweepScalars(N, lib.Scale(300, 4000), lib.Scale(40, 600))
+		var lifted ept
+		for _, e := range pool {
+			if e.Class == "lifted" {
+				lifted = e
+				break
+			}
+		}
+		lib.Mandatory("fourq.sweep")
+		lib.Par(len(sw), func(i int) {
+			k := sw[i]
+			var kb [32]byte
+			copy(kb[:], c13ref.LE(k, 32))
+			lib.Case([]byte("fourq.sweep"), kb[:])
+			lib.Count("fourq.sweep")
+			var R fourq.Point
+			kk := kb
+			if !guarded(monFourQ, "fourq.ScalarBaseMult", kb[:], func() { R.ScalarBaseMult(&kk) }) {
+				return
+			}
+			fqCheck(c, "ScalarBaseMult", "sweep", c.MulG(k), &R, lib.D("k", k.Text(16)))
+			kk = kb
+			if !guarded(monFourQ, "fourq.ScalarMult", kb[:], func() { R.ScalarMult(&kk, fqPoint(lifted.P)) }) {
+				return
+			}
+			fqCheck(c, "ScalarMult", "sweep", c.Mul(new(big.Int).Mul(big392, k), lifted.P), &R, lib.D("k", k.Text(16), "P", estr(lifted.P)))
+		})
+	}
+
+	lib.Par(lib.Scale(400, 16000), func(i int) {
 		r := lib.NewRng("c13/fourq/mul", i)
 		p := pool[r.Intn(len(pool))]
 		if r.Intn(5) == 0 {
